@@ -170,6 +170,11 @@ def compose(rng, ast, pkgbase, use_components=True, use_bases=True, use_prefixes
             relpkg = True
             imports = [(".sub.b" if x == pb else x) for x in imports]
         main["imports"] = imports
+        for comp, me in ((comp_c, pc), (comp_a, (pa, fa) if fa != "component.xml" else pa), (comp_b, pb)):
+            if rng.random() < 0.25:
+                # a component that (pointlessly) imports itself: it is already known, nothing happens
+                comp["imports"] = list(comp["imports"]) + [me]
+                c.features.add("components:self-import")
         if relpkg:
             c.features.add("prefix:relative-package")
         for comp in (comp_c, comp_a, comp_b):
@@ -206,6 +211,26 @@ def compose(rng, ast, pkgbase, use_components=True, use_bases=True, use_prefixes
             rel = names[i]
             path = "main/" + rel if not rel.startswith("../") else rel[3:]
             c.files[path] = gen.render_schema(b)
+        if nb == 1 and (main.get("keytype") or main.get("datatype")) and rng.random() < 0.6:
+            # a chain: main -> b1 -> b0, where only the bottom declares key type / datatype
+            only = "main/" + names[0] if not names[0].startswith("../") else names[0][3:]
+            b0 = {"keytype": main.get("keytype"), "datatype": main.get("datatype"), "abstract": [],
+                  "types": [], "items": []}
+            b1 = {"keytype": None, "datatype": None, "abstract": main["abstract"] if not buckets[0] and False else [],
+                  "types": [], "items": []}
+            # re-render b1 without its own declarations, extending b0
+            import re as _re
+            text = c.files[only]
+            head, rest = text.split("\n", 1)
+            head = _re.sub(r' (keytype|datatype)="[^"]*"', "", head)
+            head = head.replace("<schema", '<schema extends="b0.xml"', 1)
+            c.files[only] = head + "\n" + rest
+            if use_prefixes and not relpkg:
+                c.features |= apply_prefixes(rng, b0)
+            c.files[only.rsplit("/", 1)[0] + "/b0.xml"] = gen.render_schema(b0)
+            main["keytype"] = None
+            main["datatype"] = None
+            c.features.add("schema-extends:chain")
         main["extends_urls"] = " ".join(names)
         c.features.add("schema-extends:%d" % nb)
     if relpkg and main.get("imports"):
